@@ -20,30 +20,44 @@ static void bs_harness_init(void)
    * assumed by the harnesses that need it, see BS_GEQ_CONTENT)            */
   _Bool bs_e[BS_NG][BS_NG];
   size_t bs_w[BS_NG][BS_NG];
-  for (size_t i = 0; i < BS_NG; i++)
-    for (size_t j = 0; j < BS_NG; j++) {
-      BS_GEQ[i][j] = (bs_e[i][j] ? 1 : 0);   /* normalised: a nondet _Bool byte may be 2 */
-      BS_GEQ_W[i][j] = bs_w[i][j];
-    }
-  for (size_t i = 0; i < BS_NG; i++) {
-    __CPROVER_assume(BS_GEQ[i][i]);
-    for (size_t j = 0; j < BS_NG; j++) {
-      __CPROVER_assume(BS_GEQ[i][j] == BS_GEQ[j][i]);
-      /* equal sequences have equal lengths; and a witness of difference otherwise (skolemised, quantifier-free) */
-      __CPROVER_assume(!BS_GEQ[i][j] || BS_GRIDMEM[i].n == BS_GRIDMEM[j].n);
-      __CPROVER_assume(BS_GEQ[i][j] || BS_GRIDMEM[i].n != BS_GRIDMEM[j].n ||
-                       (BS_GEQ_W[i][j] < BS_GRIDMEM[i].n && BS_GEQ_W[i][j] < BS_CAP &&
-                        BS_GRIDMEM[i].d[BS_GEQ_W[i][j]] != BS_GRIDMEM[j].d[BS_GEQ_W[i][j]]));
-      for (size_t k = 0; k < BS_NG; k++)
-        __CPROVER_assume(!(BS_GEQ[i][j] && BS_GEQ[j][k]) || BS_GEQ[i][k]);
-    }
-  }
+  /* written out without loops (BS_NG == 4): every loop costs unwinding work in each of the proofs */
+#define BS_H2(i, j) \
+  BS_GEQ[i][j] = (bs_e[i][j] ? 1 : 0); /* normalised: a nondet _Bool byte may be 2 */ \
+  BS_GEQ_W[i][j] = bs_w[i][j];
+#define BS_H1(i) BS_H2(i, 0) BS_H2(i, 1) BS_H2(i, 2) BS_H2(i, 3)
+  BS_H1(0) BS_H1(1) BS_H1(2) BS_H1(3)
+#define BS_AX3(i, j, k) __CPROVER_assume(!(BS_GEQ[i][j] && BS_GEQ[j][k]) || BS_GEQ[i][k]);
+#define BS_AX2(i, j) \
+  __CPROVER_assume(BS_GEQ[i][j] == BS_GEQ[j][i]); \
+  /* equal sequences have equal lengths; and a witness of difference otherwise (skolemised, quantifier-free) */ \
+  __CPROVER_assume(!BS_GEQ[i][j] || BS_GRIDMEM[i].n == BS_GRIDMEM[j].n); \
+  __CPROVER_assume(BS_GEQ[i][j] || BS_GRIDMEM[i].n != BS_GRIDMEM[j].n || \
+                   (BS_GEQ_W[i][j] < BS_GRIDMEM[i].n && BS_GEQ_W[i][j] < BS_CAP && \
+                    BS_GRIDMEM[i].d[BS_GEQ_W[i][j]] != BS_GRIDMEM[j].d[BS_GEQ_W[i][j]])); \
+  BS_AX3(i, j, 0) BS_AX3(i, j, 1) BS_AX3(i, j, 2) BS_AX3(i, j, 3)
+#define BS_AX1(i) __CPROVER_assume(BS_GEQ[i][i]); BS_AX2(i, 0) BS_AX2(i, 1) BS_AX2(i, 2) BS_AX2(i, 3)
+  BS_AX1(0) BS_AX1(1) BS_AX1(2) BS_AX1(3)
   /* sortedness flags: arbitrary */
   _Bool bs_s[BS_NG];
-  for (size_t i = 0; i < BS_NG; i++) BS_SORTED[i] = (bs_s[i] ? 1 : 0);
+  BS_SORTED[0] = (bs_s[0] ? 1 : 0); BS_SORTED[1] = (bs_s[1] ? 1 : 0);
+  BS_SORTED[2] = (bs_s[2] ? 1 : 0); BS_SORTED[3] = (bs_s[3] ? 1 : 0);
+#if BS_CAP <= 16
+  /* small instance (refutation / canary / replay runs, every vector capped at BS_CAP elements): the ghost
+   * relations are *defined* exactly from the contents, so a counterexample found here is fully concrete */
+#define BS_EQK(i, j, k) (!((k) < BS_GRIDMEM[i].n) || BS_GRIDMEM[i].d[k] == BS_GRIDMEM[j].d[k])
+#define BS_DEF2(i, j) __CPROVER_assume(BS_GEQ[i][j] == (BS_GRIDMEM[i].n == BS_GRIDMEM[j].n && BS_GRIDMEM[i].n <= BS_CAP && \
+      BS_EQK(i, j, 0) && BS_EQK(i, j, 1) && BS_EQK(i, j, 2) && BS_EQK(i, j, 3) && BS_EQK(i, j, 4) && BS_EQK(i, j, 5) && \
+      BS_EQK(i, j, 6) && BS_EQK(i, j, 7)));
+#define BS_DEF1(i) BS_DEF2(i, 0) BS_DEF2(i, 1) BS_DEF2(i, 2) BS_DEF2(i, 3)
+  BS_DEF1(0) BS_DEF1(1) BS_DEF1(2) BS_DEF1(3)
+#define BS_INCK(i, k) (!((k) + 1 < BS_GRIDMEM[i].n) || BS_GRIDMEM[i].d[k] < BS_GRIDMEM[i].d[(k) + 1])
+#define BS_SDEF(i) __CPROVER_assume(BS_SORTED[i] == (BS_GRIDMEM[i].n <= BS_CAP && BS_INCK(i, 0) && BS_INCK(i, 1) && \
+      BS_INCK(i, 2) && BS_INCK(i, 3) && BS_INCK(i, 4) && BS_INCK(i, 5) && BS_INCK(i, 6)));
+  BS_SDEF(0) BS_SDEF(1) BS_SDEF(2) BS_SDEF(3)
+#endif
   /* ghost indices and points: arbitrary */
-  size_t bs_g1, bs_g2, bs_g3, bs_g4, bs_g5;
-  gq = bs_g1; gj = bs_g2; gk = bs_g3; gi = bs_g4; gw = bs_g5;
+  size_t bs_g1, bs_g2, bs_g3, bs_g4, bs_g5, bs_g6, bs_g7;
+  gq = bs_g1; gj = bs_g2; gk = bs_g3; gi = bs_g4; gw = bs_g5; gr = bs_g6; bs_veq_w = bs_g7;
   T bs_u, bs_x;
   gu = bs_u; gx = bs_x;
   bs_exc = 0;
